@@ -414,7 +414,13 @@ func (c *FnCtx) execCall(x *ssa.Call, common *ssa.CallCommon, st *State, reach *
 	// closures handed to a callee under contract may be run by it: what they write becomes arbitrary
 	c.havocClosureWrites(common, st)
 	names := calleeParamNames(spec, fullSig, common.IsInvoke())
-	results := c.applyContract(spec, fullSig, names, args, st, reach, deferred)
+	// a generic callee: parameter names come from the declaration, result and parameter types from the
+	// instantiation at this call site
+	useSig := fullSig
+	if fullSig.TypeParams() != nil && fullSig.TypeParams().Len() > 0 && sig.Params().Len() == fullSig.Params().Len() {
+		useSig = sig
+	}
+	results := c.applyContract(spec, useSig, names, args, st, reach, deferred)
 	c.copyOut(st, temps)
 	if x == nil {
 		return
